@@ -39,14 +39,14 @@ fn one_run(store0: &InMemoryBackend, key: &rustic_core::repofile::MasterKey, src
     let st = Arc::new(std::sync::Mutex::new(SplitMix(seed ^ (j.wrapping_mul(0x9E37)))));
     let st2 = st.clone();
     let delay = j % 3 != 0;
-    // schedule >= 1000: one pack write (the 3rd mutating call) stalls for 12 s (a slow upload);
+    // schedule >= 1000: one pack write (the 3rd mutating call) stalls for 21 s (a slow upload);
     // pack size: one blob per pack, so that many packs queue up behind it
     let stall = j >= 1000;
     let cnt = Arc::new(std::sync::atomic::AtomicUsize::new(0));
     rec.set_before(Some(Arc::new(move |_op| {
         if stall {
             if cnt.fetch_add(1, std::sync::atomic::Ordering::SeqCst) == 2 {
-                std::thread::sleep(Duration::from_secs(12));
+                std::thread::sleep(Duration::from_secs(21));
             }
         } else if delay {
             let us = st2.lock().unwrap().below(400);
